@@ -9,6 +9,24 @@ sys.path.insert(0, os.path.dirname(os.path.abspath(__file__)))
 import pv
 
 
+def generic_replay(chk, mod, path):
+    """judge one op file again: implementation vs model vs spec"""
+    import diffrun
+    fam = mod.replay_family(pv.repo_config())
+    ops = [l.rstrip("\n") for l in open(path) if l.strip() and not l.startswith("#")]
+    pv.lake_build(["pvdriver"])
+    r = diffrun.judge(fam, ops)
+    if r is None:
+        print("replay: implementation, model and spec agree on %d ops" % len(ops))
+        return 0
+    print("replay: %s at op %d: %s" % (r["kind"], r["at"], r["detail"]))
+    if r["kind"] in ("spec", "crash"):
+        print("VIOLATION property=%s replay=%s" % (chk.prop, path))
+    else:
+        print("VIOLATION property=%s replay=%s no-failing-input-found" % (chk.prop, path))
+    return 1
+
+
 def main():
     ap = argparse.ArgumentParser()
     ap.add_argument("prop")
@@ -19,7 +37,12 @@ def main():
     mod = importlib.import_module("props." + a.prop.lower())
     chk = pv.Check(a.prop.upper(), a.tier, seed)
     if a.replay:
-        return mod.replay(chk, a.replay) if hasattr(mod, "replay") else 2
+        if hasattr(mod, "replay"):
+            return mod.replay(chk, a.replay)
+        if hasattr(mod, "replay_family"):
+            return generic_replay(chk, mod, a.replay)
+        print("no replay support for %s: re-run the check; replay files are plain op files / descriptions" % a.prop)
+        return 2
     try:
         return mod.run(chk)
     except pv.BuildError as e:
